@@ -926,6 +926,7 @@ struct Walk {
 }
 
 fn walk(rec: Recorder, program: &Program, fail_at: Option<usize>, nonce: u64) -> Walk {
+    crate::driver::heartbeat();
     match rec {
         Recorder::Leaf => {
             let mut runner = ExprVisitorRunner::with_inner(LeafRecorder {
